@@ -109,6 +109,19 @@ def check_family_entry(ex_ctx, run_unused, log, env_expect, tag):
         return
     key, st = log.family
     idx = log.generic_index
+    # the stages are entries of a dict keyed by label: two windows with the same label would silently collapse into one stage
+    parts = [lift(x) for x in getattr(key, "sym_parts", []) if is_z3(x) or isinstance(x, (int, bool))]
+    j = z3.Int("other_window_index")
+    in_range = z3.And(j >= 0, j < log.windows.length, idx >= 0, idx < log.windows.length, j != idx, log.windows.elem(j) >= 1)
+    if parts and len(parts) == len(getattr(key, "sym_parts", [])):
+        differ = z3.Or(*[p != z3.substitute(p, (idx, j)) for p in parts if is_z3(p)]) if any(is_z3(p) for p in parts) else z3.BoolVal(False)
+        ctx.prove(f"{tag}/slow-window-stage.labels-pairwise-distinct", z3.Implies(in_range, differ),
+                  text="labels of different slow windows differ (the stage dictionary keeps one entry per window)")
+    elif not getattr(key, "sym_parts", None):
+        ctx.prove(f"{tag}/slow-window-stage.labels-pairwise-distinct", z3.Not(in_range),
+                  text="labels of different slow windows differ (the stage dictionary keeps one entry per window)")
+    else:
+        ctx.run.ob(f"{tag}/slow-window-stage.labels-pairwise-distinct", core.UNKNOWN, "pyvc", detail=f"label fields not modelled: {key.sym_parts}")
     ctx.prove(f"{tag}/slow-window-stage.n_iter", lift(st.attrs["n_iter"]) == log.windows.elem(idx))
     same = st.attrs["adapters"] is env_expect["adapters"]
     ctx.run.ob(f"{tag}/slow-window-stage.adapters-all", core.DISCHARGED if same else core.FAILED, "pyvc",
